@@ -122,6 +122,7 @@ def main():
     if a.replay:
         rp, o = native(json.load(open(a.replay))['case']); print(o); sys.exit(1 if rp else 0)
     rep = R.Report('C14', a.tier, seed); timeout = solve.TIMEOUT_MS[a.tier]
+    R.prefetch_native('props.c14_native', ['bounded', str(seed), a.tier])      # the stand-in runs while the obligations are discharged
     u = DCm.Dist()
     for k in ('_TemplateBuildDistinguisherMixin._compute', '_TemplateBuildDistinguisherMixin._check', '_BaseTemplateAttackDistinguisherMixin._initialize', '_BaseTemplateAttackDistinguisherMixin._update', '_BaseTemplateAttackDistinguisherMixin._compute',
               'TemplateAttackDistinguisherMixin.get_template_index', 'TemplateAttackDistinguisherMixin._get_dimension', 'TemplateDPADistinguisherMixin._get_dimension'): rep.function(TM + '::' + k, u.sha(TM + '::' + k))
